@@ -253,7 +253,34 @@ def _preempt_scenarios():
                 [lambda: f(7, unit="kg"), lambda: f("s", 1, scale=3), lambda: f(1), lambda: f(2.5, unit="m", scale=2)],
                 [("int", 7, None, "kg", 1), ("str", "s", 1, "u", 3), ("int", 7, None, "kg", 1), ("str", "s", 1, "u", 3),
                  ("int", 1, None, "u", 1), ("obj", 2.5, None, "m", 2)])
-    return {"dependent_handlers": dep, "descriptor_ovld": descriptor, "optional_keywords": optkw}
+    def ambiguous():
+        # a built function on which both threads make the same ambiguous call (remembered errors are shared state too)
+        class A:
+            pass
+
+        class B:
+            pass
+
+        class C(A, B):
+            pass
+        f = _ov.Ovld(name="f")
+
+        def fa(x: A, y: object):
+            return "A"
+
+        def fb(x: B, y: object):
+            return "B"
+
+        def fo(x: object, y: int):
+            return "o-int"
+        for m in (fa, fb, fo):
+            f.register(m)
+        f(A(), 1.5)
+        _outcome(lambda: f(C(), "s"))          # has failed once already
+        amb = _outcome(lambda: f(C(), "s"))
+        return ((lambda: f(C(), "s")), (lambda: f(C(), "s")), [lambda: f(C(), "s"), lambda: f(A(), "s"), lambda: f(B(), "s")],
+                [amb, amb, amb, "A", "B"])
+    return {"dependent_handlers": dep, "descriptor_ovld": descriptor, "optional_keywords": optkw, "ambiguous_call_twice": ambiguous}
 
 
 def _outcome(thunk):
